@@ -1,5 +1,5 @@
 """Human-written manifest texts per property."""
-HOOK_COMMITS = ["ee30b06"]
+HOOK_COMMITS = ["ee30b06", "a93bb16"]
 NOTES = ("Technique family: machine-checked proof in Lean 4. Every check = (1) Gen/*.lean re-extracted from /repo's working tree, "
          "(2) lake build of the property's theorems + #print axioms audit, (3) correspondence: the real code (harness, in-process) vs the "
          "executable Lean model and spec on generated cases; impl!=spec is a violation with the case as replay, a broken proof obligation or "
@@ -17,4 +17,10 @@ CHECKS["C09"] = {
     "text": "Lean theorems over the model of DWTHandler / NTTTables: for any commutative ring and any psi with psi^N = -1 the forward butterfly network with the bit-reversed root table outputs a(psi^(2*brev(i)+1)), the inverse network with the scrambled inverse table undoes it up to the factor N (cancelled by the N^-1 scalar), and the inverse transform of a pointwise product is the negacyclic product; the lazy modular instance simulates the exact network over ZMod q with all values in [0,4q) forward / [0,2q) inverse for every q < 2^61 (no u64 overflow); for prime q the minimal primitive root does not depend on the primitive root the random search found. Tied to the code by bit-exact correspondence of tables and transforms (all unit vectors for small N) and by the O(N^2) evaluation spec.",
     "note": "Trusted: Lean kernel; correspondence for model = code (sampled; unit vectors exhaustive for N <= 32 quick / 256 thorough); the random primitive-root search is an input of the model; Modulus::is_prime (Miller-Rabin, 40 random rounds) enters as a Boolean; the driver's own primality test is deterministic Miller-Rabin with 12 bases (published bound, trusted).",
     "technique": "Lean 4 theorems (generic ring + ZMod simulation) over an executable model + differential correspondence with the Rust code",
+}
+
+CHECKS["C10"] = {
+    "text": "Lean theorems over the model of RNSBase / BaseConverter / RNSTool: CRT tables well formed, decompose and compose mutually inverse bijections below the base product, fast base conversion = x + alpha*Q with one 0 <= alpha < k for all output moduli, division by the last prime = nearest integer (coefficient and NTT form), BGV variant preserves the value mod t up to q_last^-1, and the integer lemmas behind the BEHZ steps (Montgomery reduction, fast floor, Shenoy-Kumaresan, gamma-corrected scale-and-round). The model of every routine (incl. RNSTool::new with all its constants) is compared bit-exactly with the code and with big-integer specs on boundary-heavy inputs; small bases exhaustively in the thorough tier.",
+    "note": "Trusted: Lean kernel; correspondence for model = code; exact_convey_array/decrypt_mod_t round a sum of f64: proved/specified with exact rational rounding, inputs within (k+1)*2^-46 of a tie are excluded (no claim); BEHZ lemmas are proved at the integer level for the per-coefficient formulas, the lifting to the array-level model is proved for divide_and_round_q_last and otherwise covered by correspondence; status of individual theorems: DESIGN.md C10.",
+    "technique": "Lean 4 theorems (CRT, base conversion, rounding division, BEHZ integer lemmas) over an executable model + differential correspondence with the Rust code",
 }
